@@ -49,10 +49,16 @@ class _FakeThreading:
     main_thread = staticmethod(threading.main_thread)
 
 
-def run_session(rs, rd, sav, load, quit_after=None, cap=4000):
+def run_session(rs, rd, sav, load, quit_after=None, cap=4000, quit_in_next=None):
     """One run of the real session.  Returns a dict: stream, pops (pt, prob), segments
     (start index in the stream per created pre-terminal), restored (number of guesses
-    emitted by restore_omen, or None), saved (the .sav was rewritten by the quit)."""
+    emitted by restore_omen, or None), next_calls (per MarkovCracker.next_guess call:
+    stream length before it, whether it returned None).
+    quit_after=n: should_exit is set right after the n-th guess was written;
+    quit_in_next=m: should_exit is set at the entry of the m-th next_guess call of this
+    session, i.e. while the generator is searching (class attribute wrapped from the
+    harness) -- for the call that returns None this is "after the last guess, before the
+    loop notices exhaustion"."""
     from lib_guesser.pcfg_grammar import PcfgGrammar
     import lib_guesser.cracking_session as cs
     from lib_guesser.priority_queue import PcfgQueue
@@ -61,7 +67,8 @@ def run_session(rs, rd, sav, load, quit_after=None, cap=4000):
         warnings.simplefilter("ignore")
         import pcfg_guesser
     info = {"rule_name": rs["name"], "skip_brute": False, "skip_case": False}
-    res = {"stream": [], "pops": [], "segments": [], "restored": None, "error": None}
+    res = {"stream": [], "pops": [], "segments": [], "restored": None, "error": None, "next_calls": []}
+    from lib_guesser.omen.markov_cracker import MarkovCracker
 
     def body():
         pcfg = PcfgGrammar(rs["name"], rd, "4.7", sav, False, False, False)
@@ -104,8 +111,18 @@ def run_session(rs, rd, sav, load, quit_after=None, cap=4000):
                 it = PcfgQueue.next(self)
                 res["pops"].append(None if it is None else ([tuple(x) for x in it["pt"]], it["prob"]))
                 return it
+        real_next = MarkovCracker.next_guess
+
+        def next_guess(mc):
+            if quit_in_next is not None and len(res["next_calls"]) + 1 == quit_in_next:
+                pcfg.should_exit = True
+            before = len(stream)
+            g = real_next(mc)
+            res["next_calls"].append((before, g is None))
+            return g
         old_t, old_q = cs.threading, cs.PcfgQueue
         cs.threading, cs.PcfgQueue = _FakeThreading, RecQueue
+        MarkovCracker.next_guess = next_guess
         try:
             sess = cs.CrackingSession(pcfg, cfg, sav)
             try:
@@ -114,6 +131,7 @@ def run_session(rs, rd, sav, load, quit_after=None, cap=4000):
                 res["error"] = "overflow"
         finally:
             cs.threading, cs.PcfgQueue = old_t, old_q
+            MarkovCracker.next_guess = real_next
         res["cfg"] = {s: dict(cfg.items(s)) for s in cfg.sections()}
     try:
         common.quiet_call(body)
@@ -232,6 +250,48 @@ def analyse(U, j, a, b, lvl_pt, R1, R2, replay):
     return vio, ("tied" if tied else "ok")
 
 
+def exhausting_call(run, markov_ordinal):
+    """1-based index of the next_guess call that returns None for the markov_ordinal-th
+    group of calls of a session (groups end with a None call)."""
+    g = 0
+    for i, (_, none) in enumerate(run["next_calls"]):
+        if none:
+            if g == markov_ordinal:
+                return i + 1
+            g += 1
+    return None
+
+
+def analyse_complete(U, b, lvl_pt, R1, R2, replay, level_strings):
+    """First-cycle quit raised during the level's exhausting next_guess call: the level is
+    complete, nothing of it may be restored or repeated (unless tied), nothing after it lost."""
+    vio = []
+    if R1["stream"] != U["stream"][:b]:
+        return [{"sig": "C15:interrupted-stream", "what": "quit raised during the exhausting next_guess call: interrupted run emitted %d "
+                 "guesses, the level ends at %d" % (len(R1["stream"]), b), "replay": replay}], "bad"
+    following = U["pops"][U["level_pop_index"] + 1] if U["level_pop_index"] + 1 < len(U["pops"]) else None
+    if following is None:
+        return vio, "last"
+    if R2["error"]:
+        return [{"sig": "C15:resume-raises", "what": "resumed session raised: %s" % R2["error"], "replay": replay}], "bad"
+    if R2["restored"] is not None:
+        vio.append({"sig": "C15:complete-level-restored", "what": "quit raised while next_guess was finding the level exhausted: the resumed "
+                    "session restores an OMEN position and emits %r..." % R2["stream"][:3], "replay": replay})
+        return vio, "bad"
+    saved_p = following[1]
+    tied = (U["pops"][U["level_pop_index"]][1] == saved_p)
+    later = [p for p in R2["pops"] if p is not None]
+    if any(p[0] == lvl_pt for p in later) and not tied:
+        vio.append({"sig": "C15:level-regenerated", "what": "the completed level %r is generated again after the resume" % (lvl_pt,),
+                    "replay": replay})
+    want = Counter(json.dumps(p[0]) for p in U["pops"][U["level_pop_index"] + 1:] if p is not None)
+    got = Counter(json.dumps(p[0]) for p in later)
+    if want - got:
+        vio.append({"sig": "C15:rest-lost", "what": "pre-terminals after the level are never generated after the resume: %r"
+                    % list((want - got))[:2], "replay": replay})
+    return vio, ("tied" if tied else "ok")
+
+
 def explore(ctx, rs, om, buckets, sc, dist, cases, samples, max_cuts, two_cases):
     vio = []
     rd = os.path.join(sc, "Rules", rs["name"])
@@ -262,6 +322,41 @@ def explore(ctx, rs, om, buckets, sc, dist, cases, samples, max_cuts, two_cases)
             keep = {a, b - 1} | set(ctx.rng.sample(js, max_cuts - 2))
             js = sorted(keep)
         two_cycle_js = set(ctx.rng.sample(js, min(len(js), 2)))
+        markov_ordinal = sum(1 for (_, p2) in U["segments"][:seg_i] if p2[0][0] == "M")
+        # (i) quit raised while next_guess is finding the level exhausted
+        m_ex = exhausting_call(U, markov_ordinal)
+        if m_ex is not None:
+            for f in (sav, omn):
+                if os.path.exists(f):
+                    os.remove(f)
+            replay = {"ruleset": rs, "quit_in_next": m_ex}
+            R1 = run_session(rs, rd, sav, False, quit_in_next=m_ex)
+            R2 = run_session(rs, rd, sav, True)
+            v, kind = analyse_complete(U, b, pt, R1, R2, replay, set(stream[a:b]))
+            vio += v
+            evaluations += 1
+            dist["quit_in_exhausting_call_first_cycle"] += 1
+            dist["quit_in_exhausting_call_first_cycle_" + kind] += 1
+        # (ii) a quit raised inside the call that returns guess j is the quit after guess j
+        jn = ctx.rng.choice(js)
+        m_j = m_ex - (b - jn) if m_ex is not None else None
+        if m_j is not None and m_j >= 1:
+            for f in (sav, omn):
+                if os.path.exists(f):
+                    os.remove(f)
+            Ra = run_session(rs, rd, sav, False, quit_after=jn + 1)
+            sa = read_omn(omn) if os.path.exists(omn) else None
+            for f in (sav, omn):
+                if os.path.exists(f):
+                    os.remove(f)
+            Rb = run_session(rs, rd, sav, False, quit_in_next=m_j)
+            sb = read_omn(omn) if os.path.exists(omn) else None
+            evaluations += 1
+            dist["quit_inside_kth_call"] += 1
+            if Ra["stream"] != Rb["stream"] or sa != sb or Ra.get("cfg", {}).get("guessing_info") != Rb.get("cfg", {}).get("guessing_info"):
+                vio.append({"sig": "C15:quit-inside-call-differs", "what": "quit raised inside the next_guess call returning guess %d differs "
+                            "from the quit after that guess (streams %d/%d, states %r / %r)"
+                            % (jn + 1, len(Ra["stream"]), len(Rb["stream"]), sa, sb), "replay": {"ruleset": rs, "quit_in_next": m_j}})
         for j in js:
             for f in (sav, omn):
                 if os.path.exists(f):
@@ -296,19 +391,31 @@ def explore(ctx, rs, om, buckets, sc, dist, cases, samples, max_cuts, two_cases)
                 # second quit: somewhere after the remainder (so a non-Markov quit), and once inside the remainder
                 choices = [q for q in range(rem + 1, n2)] or []
                 q2s = ([ctx.rng.choice(choices)] if choices else []) + ([ctx.rng.randint(1, rem)] if rem >= 1 else [])
-                for q2 in q2s:
+                if rem >= 1 and rem not in q2s:
+                    q2s.append(rem)                      # at the last guess of the restored remainder
+                events = [("print", q) for q in q2s]
+                events.append(("next", rem + 1))         # while next_guess finds the restored level exhausted
+                if rem >= 1:
+                    events.append(("next", ctx.rng.randint(1, rem)))   # inside the call returning a guess of the remainder
+                for kind2, q2 in events:
+                    exhausting = (kind2 == "next" and q2 == rem + 1)
+                    qa = q2 if kind2 == "print" else None
+                    qn = q2 if kind2 == "next" else None
+                    if exhausting:
+                        q2 = rem          # the second session emits exactly the remainder
                     # redo cycle 1 to have fresh save files
                     for f in (sav, omn):
                         if os.path.exists(f):
                             os.remove(f)
                     run_session(rs, rd, sav, False, quit_after=j + 1)
                     state1 = read_omn(omn) if os.path.exists(omn) else None
-                    R2q = run_session(rs, rd, sav, True, quit_after=q2)
+                    R2q = run_session(rs, rd, sav, True, quit_after=qa, quit_in_next=qn)
                     state2 = read_omn(omn) if os.path.exists(omn) else None
                     R3 = run_session(rs, rd, sav, True)
                     dist["two_cycle_histories"] += 1
                     evaluations += 1
-                    rp = dict(replay, then_quit_after=q2)
+                    rp = dict(replay, then_quit_after=qa, then_quit_in_next=qn)
+                    dist["second_quit_" + ("in_exhausting_call" if exhausting else "inside_call" if qn else "after_print")] += 1
                     # (a quit inside an ordinary pre-terminal lets that pre-terminal finish)
                     if len(R2q["stream"]) < q2 or R2q["stream"] != R2["stream"][:len(R2q["stream"])] or R3["error"]:
                         vio.append({"sig": "C15:second-cycle-stream", "what": "second interrupted run differs from the resumed run's prefix "
@@ -321,27 +428,30 @@ def explore(ctx, rs, om, buckets, sc, dist, cases, samples, max_cuts, two_cases)
                         continue
                     S3 = R3["stream"]
                     level_strings = set(stream[a:b])
-                    seg2x = [pt2 for (st2, pt2) in R2q["segments"] if st2 <= q2 - 1]
-                    if state1 is not None and state2 is not None and not (q2 > rem and seg2x and seg2x[-1][0][0] == "M"):
-                        two_cases.append({"om": om, "state1": state1, "inside": q2 <= rem, "state2": state2,
-                                          "third": None if R3["restored"] is None else S3[:R3["restored"]],
-                                          "replay": dict(replay, then_quit_after=q2)})
                     seg2 = [pt2 for (st2, pt2) in R2q["segments"] if st2 <= q2 - 1]
-                    if q2 > rem and seg2 and seg2[-1][0][0] == "M":
+                    other_markov = (not exhausting) and q2 > rem and seg2 and seg2[-1][0][0] == "M"
+                    inside = (q2 <= rem) and not exhausting       # the quit check after a guess of the restored level fired
+                    if state1 is not None and state2 is not None and not other_markov:
+                        two_cases.append({"om": om, "state1": state1, "inside": inside, "state2": state2,
+                                          "third": None if R3["restored"] is None else S3[:R3["restored"]],
+                                          "replay": rp})
+                    if other_markov:
                         dist["second_quit_in_another_markov_level"] += 1
                         continue
-                    if q2 > rem:
-                        # quit outside the level: nothing of the level may come again (unless tied group)
-                        replayed = [s for s in S3[:rem] if s in level_strings] if R3["restored"] is not None else []
+                    if not inside:
+                        # the restored level ran to its end (quit outside the level, or raised while next_guess found it
+                        # exhausted): nothing of the level may come again (unless tied group)
+                        replayed = [s for s in S3[:R3["restored"]] if s in level_strings] if R3["restored"] is not None else []
                         if R3["restored"] is not None and replayed:
+                            where = ("while next_guess() was finding the restored level exhausted (after its last guess was written)"
+                                     if exhausting else "after %d more guesses (outside the level)" % q2)
                             vio.append({"sig": "C15:stale-replay",
-                                        "what": "level of %d strings quit after its guess %d, resumed (remainder emitted once), quit again "
-                                                "after %d more guesses (outside the level), resumed again: the third run first replays %d "
-                                                "string(s) of the level's remainder again, e.g. %r (omen_guess_number is never removed "
-                                                "from the save config, the stale .omn is restored)"
-                                                % (b - a, j - a + 1, q2, R3["restored"], replayed[:3]), "replay": rp})
+                                        "what": "level of %d strings quit after its guess %d, resumed (remainder of %d emitted once), second quit "
+                                                "%s, resumed again: the third run first replays %d string(s) of the level's remainder again, "
+                                                "e.g. %r (stale omen_guess_number and .omn are restored)"
+                                                % (b - a, j - a + 1, rem, where, len(replayed), replayed[:3]), "replay": rp})
                     else:
-                        # quit inside the remainder: the third run must start with the rest of the remainder
+                        # quit after a guess of the remainder: the third run must start with the rest of the remainder
                         want = R2["stream"][q2:rem]
                         got = S3[:R3["restored"]] if R3["restored"] is not None else None
                         if got != want:
@@ -460,26 +570,43 @@ def replay(ctx, data):
     rulesets.write_ruleset(rs, rd)
     sav = os.path.join(sc, "sess.sav")
     U = run_session(rs, rd, sav, False)
+    segs = U["segments"] + [(len(U["stream"]), None)]
+    os.remove(sav)
+    if "quit_after" not in inp:
+        # first-cycle quit raised inside a next_guess call
+        R1 = run_session(rs, rd, sav, False, quit_in_next=inp["quit_in_next"])
+        n = len(R1["stream"])
+        seg = [(i, s0, segs[i + 1][0], pt) for i, (s0, pt) in enumerate(U["segments"]) if s0 < n <= segs[i + 1][0] or (s0 == n == segs[i + 1][0])]
+        seg = [x for x in seg if x[3][0][0] == "M"]
+        if not seg:
+            return []
+        i, a, b, pt = seg[-1]
+        U["level_pop_index"] = [k for k, p in enumerate(U["pops"]) if p is not None and p[0] == pt][0]
+        if n != b:
+            return []
+        R2 = run_session(rs, rd, sav, True)
+        v, _ = analyse_complete(U, b, pt, R1, R2, inp, set(U["stream"][a:b]))
+        return v
     q = inp["quit_after"]
     j = q - 1
-    segs = U["segments"] + [(len(U["stream"]), None)]
-    seg = [(i, s, segs[i + 1][0], pt) for i, (s, pt) in enumerate(U["segments"]) if s <= j < segs[i + 1][0]]
+    seg = [(i, s0, segs[i + 1][0], pt) for i, (s0, pt) in enumerate(U["segments"]) if s0 <= j < segs[i + 1][0]]
     if not seg or seg[0][3][0][0] != "M":
         return []
     i, a, b, pt = seg[0]
     U["level_pop_index"] = [k for k, p in enumerate(U["pops"]) if p is not None and p[0] == pt][0]
-    os.remove(sav)
     R1 = run_session(rs, rd, sav, False, quit_after=q)
-    if "then_quit_after" not in inp:
+    qa, qn = inp.get("then_quit_after"), inp.get("then_quit_in_next")
+    if qa is None and qn is None:
         R2 = run_session(rs, rd, sav, True)
         v, _ = analyse(U, j, a, b, pt, R1, R2, inp)
         return v
-    R2 = run_session(rs, rd, sav, True, quit_after=inp["then_quit_after"])
+    R2 = run_session(rs, rd, sav, True, quit_after=qa, quit_in_next=qn)
     R3 = run_session(rs, rd, sav, True)
     rem = b - (j + 1)
-    if inp["then_quit_after"] > rem and R2["pops"] and R2["pops"][-1] is not None and R3["restored"] is not None:
+    ended = (qn == rem + 1) or (qa is not None and qa > rem)
+    if ended and R2["pops"] and R2["pops"][-1] is not None and R3["restored"] is not None:
         lv = set(U["stream"][a:b])
-        rp = [s for s in R3["stream"][:rem] if s in lv]
+        rp = [s0 for s0 in R3["stream"][:R3["restored"]] if s0 in lv]
         if rp:
             return [{"sig": "C15:stale-replay", "what": "third run replays %r of the level's remainder" % rp[:3], "replay": inp}]
     return []
